@@ -415,21 +415,23 @@ def run(ctx):
                 p = dict(dim=dim, S=U, theta=float(gen.angle(rng)))
         drive(RUNNERS, ctx, 'exp', p)
         if ctx.ncases % 1999 == 1:
-            ctx.sample(dict(kind='exp', **p))
+            ctx.sample(dict(case='exp', **p))
     for _ in range(ctx.scale(6000, 200000)):
         dim = int(rng.integers(2, 4))
         kind = 'so' if rng.random() < 0.3 else 'se'
         p = dict(dim=dim, kind=kind, S=algebra(rng, dim, kind))
         drive(RUNNERS, ctx, 'log', p)
         if ctx.ncases % 1999 == 1:
-            ctx.sample(dict(kind='log', **p))
+            ctx.sample(dict(case='log', **p))
     for _ in range(ctx.scale(3000, 80000)):
         dim = int(rng.integers(2, 4))
         which = ['Exp', 'log', 'Twist', 'twexp'][rng.integers(4)]
         kind = 'se' if which in ('Twist', 'twexp') else ('so' if rng.random() < 0.4 else 'se')
-        p = dict(dim=dim, kind=kind, S=algebra(rng, dim, kind, many=which in ('Exp', 'twexp')), which=which)
+        with_theta = which == 'twexp' and rng.random() < 0.6
+        # many-turn rotation vectors only without an extra theta factor (the product would leave the stated range)
+        p = dict(dim=dim, kind=kind, S=algebra(rng, dim, kind, many=which in ('Exp', 'twexp') and not with_theta), which=which)
         if which == 'Exp':
             p['form'] = ['vec', 'list', 'mat'][rng.integers(3)]
-        if which == 'twexp' and rng.random() < 0.6:
+        if with_theta:
             p['theta'] = float(gen.angle(rng))
         drive(RUNNERS, ctx, 'class', p)
